@@ -4,7 +4,29 @@ use crate::common::*;
 use crate::props::c14::{parse_payload, show_out};
 use rdp::core::event::BitmapEvent;
 
+/// `decomp2 BPP HEX w1 h1 w2 h2`: the same compressed data decoded twice in a row, on the same thread, with two geometries
+fn run_decomp2(toks: &[&str], em: &mut Emitter) {
+    let line = toks.join(" ");
+    let bpp: u16 = toks[1].parse().unwrap(); let data = parse_payload(toks[2]);
+    let g: Vec<usize> = toks[3..7].iter().map(|x| x.parse().unwrap()).collect();
+    em.case(&line, move || {
+        let mut outs = vec![]; let mut viol: Option<String> = None; let mut any = false;
+        for k in 0..2 {
+            let (w, h) = (g[2 * k], g[2 * k + 1]);
+            let ev = BitmapEvent { dest_left: 0, dest_top: 0, dest_right: 0, dest_bottom: 0, width: w as u16, height: h as u16, bpp, is_compress: true, data: data.clone() };
+            match ev.decompress() {
+                Ok(out) => { if out.len() != w * h * 4 { viol = Some(format!("decompress returned {} bytes for a {}x{} bitmap", out.len(), w, h)); } any = any || !out.is_empty(); outs.push(format!("ok {}", show_out(&out))); }
+                Err(_) => outs.push("E".into()),
+            }
+        }
+        let mut o = Obs::new(outs.join("|")).nt(any).tag("twice");
+        if let Some(v) = viol { o = o.viol(&v); }
+        o
+    });
+}
+
 pub fn run_case(toks: &[&str], em: &mut Emitter) {
+    if toks[0] == "decomp2" { return run_decomp2(toks, em); }
     let line = toks.join(" ");
     let w: usize = toks[1].parse().unwrap(); let h: usize = toks[2].parse().unwrap();
     let bpp: u16 = toks[3].parse().unwrap(); let c = toks[4] == "1";
@@ -182,6 +204,36 @@ pub fn generate(prop: &str, thorough: bool, seed: u64, part: (usize, usize), em:
                 let toks: Vec<&str> = line.split(' ').collect(); run_case(&toks, em);
             } }
         }
+    }
+    if c09 && part.0 == 0 {
+        // 3b. bitmaps of more than 65536 pixels (width and height are 16-bit fields, their product is not): raw at both
+        // depths, and interleaved RLE with mega runs split at the end of the first scanline
+        for &(w, h) in &[(256usize, 257usize), (1024, 65), (257, 256), (300, 300)] {
+            for &bpp in &[16u16, 32] {
+                let line = format!("decomp {} {} {} 0 pat:{}:7", w, h, bpp, w * h * (bpp as usize / 8));
+                let toks: Vec<&str> = line.split(' ').collect(); run_case(&toks, em);
+            }
+            // colour run over the first scanline, then colour runs of at most 65535 pixels in other colours
+            let mut d = vec![0xf3u8]; d.extend(&le16(w as u16)); d.extend(&le16(0x1234));
+            let mut left = w * h - w; let mut col = 0x0f0fu16;
+            while left > 0 { let n = left.min(65535); d.push(0xf3); d.extend(&le16(n as u16)); d.extend(&le16(col)); col = col.wrapping_mul(3).wrapping_add(1); left -= n; }
+            emit(em, w, h, 16, true, &d);
+        }
+    }
+    if part.0 == 0 {
+        // 3c. the same compressed stream decoded twice in a row with different geometries of the same pixel count
+        let shapes: [(usize, usize); 4] = [(4, 2), (2, 4), (8, 1), (1, 8)];
+        let mut datas: Vec<(u16, Vec<u8>)> = vec![];
+        { let mut d = vec![0x88u8]; for k in 0..8u16 { d.extend(&le16(0x1111u16.wrapping_mul(k + 1))); } datas.push((16, d)); }
+        datas.push((16, vec![0x64, 0x34, 0x12, 0x64, 0x78, 0x56]));
+        datas.push((16, vec![0xE4, 0x0f, 0x00, 0xf0, 0xff]));
+        // planar: four planes of 6 raw bytes each decode as 1x6 (six rows of one) and as 6x1
+        { let mut d = vec![0x10u8]; for p in 0..4u8 { for k in 0..6u8 { d.push(0x10); d.push(p * 16 + k); } } datas.push((32, d)); }
+        for (bpp, d) in &datas { for a in 0..4 { for b in 0..4 {
+            let (s1, s2) = if *bpp == 32 { ([(1usize, 6usize), (6, 1), (1, 6), (6, 1)][a], [(6usize, 1usize), (1, 6), (1, 6), (6, 1)][b]) } else { (shapes[a], shapes[b]) };
+            let line = format!("decomp2 {} {} {} {} {} {}", bpp, hex(d), s1.0, s1.1, s2.0, s2.1);
+            let toks: Vec<&str> = line.split(' ').collect(); run_case(&toks, em);
+        } } }
     }
     // 4. grammar-aware streams (valid, and slightly over/under-running when not C09)
     let n = if thorough { 60000 } else { 6000 };
